@@ -29,6 +29,8 @@ pub struct LibOpts {
     pub profile: Profile,
     pub self_links: bool,
     pub dangling: bool,
+    /// internal links inside paragraphs (false: only block references are internal)
+    pub inline_internal: bool,
 }
 
 impl LibOpts {
@@ -44,6 +46,7 @@ impl LibOpts {
             profile: Profile::clean(vec![]),
             self_links: true,
             dangling: true,
+            inline_internal: true,
         }
     }
 }
@@ -87,7 +90,7 @@ fn targets_for(from: &str, keys: &[String], o: &LibOpts, rng: &mut Rng) -> (Vec<
             external: false,
         });
         // inline links are keyed by their raw url: only root-level sources are clean
-        if o.cross_dir_inline || dir.is_empty() {
+        if o.inline_internal && (o.cross_dir_inline || dir.is_empty()) {
             inline_targets.push(Target {
                 dest,
                 external: false,
@@ -100,7 +103,7 @@ fn targets_for(from: &str, keys: &[String], o: &LibOpts, rng: &mut Rng) -> (Vec<
             external: false,
         };
         block_targets.push(t.clone());
-        if o.cross_dir_inline || dir.is_empty() {
+        if o.inline_internal && (o.cross_dir_inline || dir.is_empty()) {
             inline_targets.push(t);
         }
     }
